@@ -865,6 +865,40 @@ class Engine:
             self.notes.append('state explosion while inlining %s' % f.key)
         return out
 
+    def construct(self, n, f, st, func, objname):
+        """runs constructor f for a new object called objname; returns states"""
+        _, args = self.args_of(n)
+        outs = []
+        for vals, s in _ev_all(self, [a for a in args], st, func):
+            saved = s.vars
+            cs = s.copy()
+            cs.vars = {}
+            for p, v in zip(f.params, vals):
+                cs.vars[p['name']] = v
+            cs.fields = self.swap_obj(cs.fields, 'this', objname)
+            self.depth += 1
+            try:
+                cur = [cs]
+                for ini in f.inits:
+                    if ini.get('kind') == 'member' and isinstance(ini.get('init'), dict):
+                        nxt = []
+                        for c0 in cur:
+                            for v, c1 in self.ev(ini['init'], c0, f):
+                                c1.fields[('this', ini['name'])] = v
+                                nxt.append(c1)
+                        cur = nxt
+                cur = self.stmt(f.body, cur, f) if isinstance(f.body, dict) else cur
+            finally:
+                self.depth -= 1
+            for r in cur:
+                r.fields = self.swap_obj(r.fields, 'this', objname)
+                r.vars = dict(saved)
+                if r.status == 'return':
+                    r.status = 'normal'
+                r.ret = None
+                outs.append(r)
+        return outs
+
     @staticmethod
     def swap_obj(fields, a, b):
         res = {}
@@ -986,6 +1020,14 @@ class Engine:
                         else:
                             nxt.append(s)
                         continue
+                    ini = d.get('init')
+                    if isinstance(ini, dict) and ini.get('k') == 'CXXConstructExpr':
+                        tg = self.prog.by_key.get(ini.get('ckey'))
+                        if tg and self.inlineable(tg[0]) and self.find_model(ini.get('callee', '')) is None:
+                            for s1 in self.construct(ini, tg[0], s, func, 'local.' + d['name']):
+                                s1.vars[d['name']] = Obj('local.' + d['name'], btype(d.get('t')))
+                                nxt.append(s1)
+                            continue
                     if isinstance(d.get('init'), dict):
                         for v, s1 in self.ev(d['init'], s, func):
                             if isinstance(v, Lin):
@@ -1077,6 +1119,7 @@ class Engine:
         also whether an un-inlined non-const member call on this occurs"""
         vars_, fields, havoc_this = set(), set(), False
         incs, decs = {}, {}
+        self._mut_objs = getattr(self, '_mut_objs', set())
         for root in nodes:
             if not isinstance(root, dict):
                 continue
@@ -1122,11 +1165,13 @@ class Engine:
                         else:
                             havoc_this = True
                     else:
-                        # mutating call on a member object (vector resize, ...)
+                        # mutating call on a member object (vector resize, ...) or on a local object
                         if kids and kids[0].get('k') == 'MemberExpr' and children(kids[0]):
                             o = strip_all_casts(children(kids[0])[0])
                             if o.get('k') == 'MemberExpr' and o.get('ref', {}).get('dk') == 'Field':
                                 fields.add(o['ref']['name'])
+                            elif o.get('k') == 'DeclRefExpr':
+                                vars_.add('obj:local.' + o['ref']['name'])
         return vars_, fields, havoc_this, incs, decs
 
     def loop(self, n, states, func):
@@ -1147,19 +1192,74 @@ class Engine:
             cur = self.stmt(init, cur, func)
         out = []
         vars_, fields, havoc_this, incs, decs = self.modified_in([cond, inc, body], func)
+        peel = self.cfg.get('peel_loops', False) or k == 'DoStmt'
+
+        def one_iteration(start_states, assume_cond):
+            """runs cond (if assume_cond) + body + inc from the given head states; returns
+            (states at the end of the iteration, states that left the loop at the condition)"""
+            exits = []
+            if k == 'CXXForRangeStmt':
+                bs = []
+                for h0 in start_states:
+                    exits.append(h0.copy())
+                    for b0 in (self.stmt(kids[1], [h0.copy()], func) if isinstance(kids[1], dict) else [h0.copy()]):
+                        lv = kids[1]['decls'][0]['name'] if kids[1] and kids[1].get('decls') else None
+                        if lv:
+                            lt_ = btype(kids[1]['decls'][0].get('t', '').rstrip('&').strip())
+                            if lt_.startswith('std::basic_string<char'):
+                                b0.vars[lv] = Obj('%s#%d' % (lv, next(self.counter)), 'std::string')
+                            else:
+                                b0.vars[lv] = UNKNOWN
+                        bs.append(b0)
+                body_states = self.stmt(body, bs, func) if bs else []
+            elif k == 'DoStmt' or not assume_cond or cond is None:
+                body_states = self.stmt(body, [h0.copy() for h0 in start_states], func) if start_states else []
+            else:
+                tstates = []
+                for h0 in start_states:
+                    for truth, s1 in self.cond(cond, h0.copy(), func):
+                        (tstates if truth else exits).append(s1)
+                body_states = self.stmt(body, tstates, func) if tstates else []
+            after = []
+            for b0 in body_states:
+                if b0.status == 'break':
+                    b0.status = 'normal'
+                    out.append(b0)
+                elif b0.status in ('continue', 'normal'):
+                    b0.status = 'normal'
+                    after.append(b0)
+                else:
+                    out.append(b0)      # return / throw
+            if inc is not None:
+                after = [s1 for a0 in after for _, s1 in self.ev(inc, a0, func)]
+            return after, exits
+
         for s in cur:
             if s.status != 'normal':
                 out.append(s)
                 continue
-            # invariants must hold on entry
+            # class invariants must hold on entry
             self.check_invariants(s, func, n, 'on loop entry')
+            first_after = []
+            if peel:
+                first_after, exits0 = one_iteration([s], True)
+                if k != 'DoStmt':
+                    out.extend(exits0)
+                for a in first_after:
+                    if a.status == 'normal':
+                        self.check_invariants(a, func, n, 'after the first loop iteration')
+                        for desc, goals in self.loop_invariants(a, func, n):
+                            self.oblige(a, goals, 'invariant', '%s after the first loop iteration' % desc, n, func)
+            else:
+                for desc, goals in self.loop_invariants(s, func, n):
+                    self.oblige(s, goals, 'invariant', '%s on loop entry' % desc, n, func)
+            # general iteration: havocked state
             head = s.copy()
             mono = []
             for v in vars_:
                 old = s.vars.get(v)
                 if isinstance(old, Lin):
                     nv = self.fresh(v, head, None)
-                    tname = None
                     head.vars[v] = nv
                     if incs.get(v) and not decs.get(v):
                         head.assume(ge(nv, old))
@@ -1167,61 +1267,40 @@ class Engine:
                     elif decs.get(v) and not incs.get(v):
                         head.assume(le(nv, old))
                         mono.append((v, 'dec', old))
-                    # unsigned locals stay in range
                 elif isinstance(old, Ptr):
                     head.vars[v] = Ptr(old.region, self.fresh(v + '.off', head, None))
                 elif v in head.vars:
                     head.vars[v] = UNKNOWN
             self.havoc_fields(head, fields, havoc_this)
+            for v in vars_:
+                if v.startswith('obj:'):
+                    for key in list(head.fields):
+                        if key[0] == v[4:] and isinstance(head.fields[key], Lin):
+                            head.fields[key] = self.fresh('%s.%s' % key, head, head.ftypes.get(key))
+            hook = self.cfg.get('loop_havoc')
+            if hook:
+                hook(self, head, func, n)
             self.assume_invariants(head, func)
-            # type ranges of havocked unsigned variables: taken from their declared types where known
+            for desc, goals in self.loop_invariants(head, func, n):
+                head.assume(*goals)
             for v in vars_:
                 t = self.var_type(func, v, n)
                 if t and isinstance(head.vars.get(v), Lin):
                     self.type_range(head, head.vars[v], t)
-            if k == 'CXXForRangeStmt':
-                bs = self.stmt(kids[1], [head.copy()], func) if isinstance(kids[1], dict) else [head.copy()]
-                for b in bs:
-                    # the loop variable is an element of the range: opaque
-                    lv = kids[1]['decls'][0]['name'] if kids[1] and kids[1].get('decls') else None
-                    if lv:
-                        b.vars[lv] = UNKNOWN
-                body_states = self.stmt(body, bs, func)
-                exit_states = [head.copy()]
-            elif k == 'DoStmt':
-                # first iteration from the concrete entry state, later iterations from the havocked
-                # state in which the loop condition held when control jumped back
-                later = []
+            if k == 'DoStmt':
+                starts = []
                 for truth, s1 in self.cond(cond, head.copy(), func):
                     if truth:
-                        later.append(s1)
-                body_states = self.stmt(body, [s.copy()] + later, func)
-                exit_states = []
+                        starts.append(s1)
+                after, exits = one_iteration(starts, False)
             else:
-                tstates, exit_states = [], []
-                if cond is None:
-                    tstates = [head.copy()]
-                else:
-                    for truth, s1 in self.cond(cond, head.copy(), func):
-                        (tstates if truth else exit_states).append(s1)
-                body_states = self.stmt(body, tstates, func) if tstates else []
-            after = []
-            for b in body_states:
-                if b.status == 'break':
-                    b.status = 'normal'
-                    out.append(b)
-                elif b.status == 'continue':
-                    b.status = 'normal'
-                    after.append(b)
-                elif b.status == 'normal':
-                    after.append(b)
-                else:
-                    out.append(b)      # return / throw
-            if inc is not None:
-                after = [s1 for a in after for _, s1 in self.ev(inc, a, func)]
+                after, exits = one_iteration([head], True)
+                out.extend(exits)
             for a in after:
                 if a.status == 'normal':
                     self.check_invariants(a, func, n, 'after one loop iteration')
+                    for desc, goals in self.loop_invariants(a, func, n):
+                        self.oblige(a, goals, 'invariant', '%s is preserved by one loop iteration' % desc, n, func)
                     for v, direction, _old in mono:
                         nv = a.vars.get(v)
                         wrapped = isinstance(nv, Lin) and any(str(x).startswith('wrap<') for x in nv.syms())
@@ -1231,15 +1310,20 @@ class Engine:
                             'the %s of the unsigned counter can wrap on the path [%s]' % (
                                 'decrement' if direction == 'dec' else 'increment', '; '.join(a.trail[-6:]))))
             if k == 'DoStmt':
-                for a in after:
+                for a in first_after + after:
                     if a.status != 'normal':
                         out.append(a)
                         continue
                     for truth, s1 in self.cond(cond, a, func):
                         if not truth:
                             out.append(s1)
-            out.extend(exit_states)
         return out
+
+    def loop_invariants(self, st, func, loop):
+        hook = self.cfg.get('loop_invariants')
+        if hook is None:
+            return []
+        return hook(self, st, func, loop)
 
     def var_type(self, func, name, loop):
         for x in walk(loop):
